@@ -675,6 +675,7 @@ type largePQ struct {
 	where   []int
 	count   int
 	sinceRB int
+	rbEvery int // steps between full read-backs (0: U/8)
 }
 
 func (d *largePQ) size() int { return d.count }
@@ -802,6 +803,9 @@ func (d *largePQ) check(after string, touched int) {
 	}
 	d.sinceRB++
 	every := d.U / 8
+	if d.rbEvery > 0 {
+		every = d.rbEvery
+	}
 	if every < 1000 {
 		every = 1000
 	}
@@ -875,7 +879,14 @@ func (d *largePQ) updatePresent(raw int) {
 	if d.failed || d.count == 0 {
 		return
 	}
-	k := d.perm[d.rnd.Intn(d.count)]
+	d.updateKey(d.perm[d.rnd.Intn(d.count)], raw)
+}
+
+// updateKey updates the present key k.
+func (d *largePQ) updateKey(k, raw int) {
+	if d.failed {
+		return
+	}
 	d.rec("Update-present", k, raw)
 	if !d.try("Update", func() { d.q.Update(k, raw) }) {
 		return
@@ -936,15 +947,22 @@ func (d *largePQ) mutate() {
 			d.check("Remove of an absent key", k)
 		}
 	default:
-		k := d.perm[d.rnd.Intn(d.count)]
-		n := d.count
-		d.rec("Remove", k, 0)
-		if d.try("Remove", func() { d.q.Remove(k) }) {
-			d.modelDel(k)
-			d.justPopped = false
-			d.op("Large.PQ.Remove-present", n)
-			d.check("Remove of a present key", k)
-		}
+		d.removeKey(d.perm[d.rnd.Intn(d.count)])
+	}
+}
+
+// removeKey removes the present key k.
+func (d *largePQ) removeKey(k int) {
+	if d.failed {
+		return
+	}
+	n := d.count
+	d.rec("Remove", k, 0)
+	if d.try("Remove", func() { d.q.Remove(k) }) {
+		d.modelDel(k)
+		d.justPopped = false
+		d.op("Large.PQ.Remove-present", n)
+		d.check("Remove of a present key", k)
 	}
 }
 
